@@ -1,6 +1,8 @@
 import sys
 k=sys.argv[1]; files=sys.argv[2]
 done=sys.argv[3] if len(sys.argv)>3 else ""
+n=int(sys.argv[4]) if len(sys.argv)>4 else 8
+style=sys.argv[5] if len(sys.argv)>5 else ""
 print(f"""You are helping test a static-analysis effort for the Go library crate-crypto/go-ipa (Verkle-tree cryptography: Bandersnatch/Banderwagon group, Pedersen commitments, IPA and multiproof prover/verifier). The analysers must NOT raise alarms on behaviour-preserving rewrites, so we need a set of realistic, genuinely behaviour-preserving refactors to try them on.
 
 You have your own scratch git worktree of the repository at /tmp/wr-{k} (work ONLY there; never touch /repo or /verif, and do not read anything under /verif). Write results to /tmp/outr-{k}/.
@@ -11,7 +13,7 @@ Full test suite:  cd /tmp/wr-{k} && go test -vet=off -count=1 -timeout 25m ./...
 
 Your files: {files}
 
-Task: produce 8 INDEPENDENT refactors of NON-TEST code in those files, each one a separate patch against the unchanged HEAD (reset the worktree between them). Each must be the kind of rewrite a maintainer would do and a reviewer would accept as "no functional change", for example:
+Task: produce {n} INDEPENDENT refactors of NON-TEST code in those files, each one a separate patch against the unchanged HEAD (reset the worktree between them). Each must be the kind of rewrite a maintainer would do and a reviewer would accept as "no functional change", for example:
   - rename local variables / unexported helpers; reorder independent statements or declarations
   - extract a block into a new unexported helper function or method, or inline a small helper into its caller
   - change loop form (index loop <-> range loop, counting up <-> an equivalent formulation), hoist a loop-invariant expression into a local
@@ -20,8 +22,8 @@ Task: produce 8 INDEPENDENT refactors of NON-TEST code in those files, each one 
   - use an equivalent standard-library call (e.g. io.ReadFull for io.ReadAtLeast with the full length, new(T) for &T{{}}, copy() for an element loop, append-in-loop <-> preallocated slice)
   - move a variable declaration closer to / further from its use; change a closure into a named function (passing what it captured) or the reverse
   - wrap/unwrap errors with the same message text; add comments
-Vary the kinds across the 8 patches, and spread them over different functions (prefer the functions that carry the library's core logic: proof creation/verification, transcript, (de)serialisation, decoding/validation, multi-scalar multiplication, table construction, field comparisons/encodings, parallel executor, batch normalisation). Make each patch reasonably substantial (touching 5-40 lines), not a one-token edit.{(" An earlier batch already produced the following refactors (names only; rN = file group): " + done + ". Choose DIFFERENT functions and/or different kinds of rewrite than those.") if done else ""}
+{style} Vary the kinds across the patches, and spread them over different functions (prefer the functions that carry the library's core logic: proof creation/verification, transcript, (de)serialisation, decoding/validation, multi-scalar multiplication, table construction, field comparisons/encodings, parallel executor, batch normalisation). Make each patch reasonably substantial (touching 5-40 lines), not a one-token edit.{(" An earlier batch already produced the following refactors (names only; rN = file group): " + done + ". Choose DIFFERENT functions and/or different kinds of rewrite than those.") if done else ""}
 
 HARD REQUIREMENTS for every patch: the observable behaviour must be IDENTICAL for every input (not just the tested ones): same results, same errors returned in the same situations (error message wording may stay the same; do not add or remove checks), same mutation/non-mutation of arguments, same aliasing safety, same concurrency structure guarantees (no new shared mutable state, no removed synchronisation), same bytes written/read, same transcript contents. Do not change exported signatures. Do not "fix" or "optimise" anything. If you are not sure a rewrite preserves behaviour in every case, pick another one.
 
-For each patch NN (01..08): apply it to a clean worktree, run `go build ./... && go vet ./...` and the FULL test suite, then save `git -C /tmp/wr-{k} diff > /tmp/outr-{k}/NN-short-name.diff`, then `git -C /tmp/wr-{k} checkout -- .` before starting the next. Also write /tmp/outr-{k}/README.md with one line per patch: file/function touched, kind of refactor, and why behaviour is unchanged. Leave the worktree clean at the end. Keep your final answer to a few lines.""")
+For each patch NN (01..{n:02d}): apply it to a clean worktree, run `go build ./... && go vet ./...` and the FULL test suite, then save `git -C /tmp/wr-{k} diff > /tmp/outr-{k}/NN-short-name.diff`, then `git -C /tmp/wr-{k} checkout -- .` before starting the next. Also write /tmp/outr-{k}/README.md with one line per patch: file/function touched, kind of refactor, and why behaviour is unchanged. Leave the worktree clean at the end. Keep your final answer to a few lines.""")
